@@ -164,14 +164,17 @@ prop("C11",
                 "ASCII space characters only and no empty piece; NonRecursiveTreeWalker.__iter__, for an arbitrary node (any "
                 "answer of getNodeDetails), emits on entering exactly the token(s) of that node kind (EmptyTag for void HTML "
                 "elements and no descent into them, StartTag otherwise, Doctype/Comment/Entity/text pieces/error) and on "
-                "leaving an EndTag exactly for the elements that got a StartTag -- the two guards are proved complementary.",
-     level_note="Trusted: pyvc, z3. Step contracts (arbitrary node, arbitrary walk state); that the traversal visits every "
-                "node once in document order (balanced nesting) additionally needs the tree axioms of getFirstChild/"
-                "getNextSibling/getParentNode and is NOT mechanised in this revision, nor are the etree/dom back-end "
-                "getNodeDetails (attribute/namespace decoding; known finding: '{..}' in attribute names on etree), the Lint "
-                "filter, or the cross-walker equality.",
-     not_decided=["document-order traversal / balance over whole trees", "etree and dom getNodeDetails", "Lint acceptance",
-                  "rebuilding the tree from the stream", "equality of the etree and dom streams"],
+                "leaving an EndTag exactly for the elements that got a StartTag -- the two guards are proved complementary. The "
+                "etree walker's getFirstChild / getNextSibling / getParentNode are first child / next sibling / parent of the "
+                "DOM-like child sequence [text][child][tail]... of an ElementTree element (bounded: parents with up to 2 children, "
+                "not counted). Bounded/ground on the real code: attributes read back identically through the etree and dom "
+                "walkers; thorough tier: on 376k parsed trees the streams pass the Lint filter and agree across walkers.",
+     level_note="Trusted: pyvc, z3, spec/etmodel.py. Step contracts (arbitrary node, arbitrary walk state); that the traversal "
+                "visits every node once in document order follows from the loop contract plus the navigation contracts by "
+                "induction over the tree, which is NOT mechanised; the dom walker's navigation is minidom's own; getNodeDetails of "
+                "the back ends is covered only for attributes (bounded).",
+     not_decided=["document-order traversal over whole trees (induction not mechanised)", "getNodeDetails beyond attributes",
+                  "rebuilding the tree from the stream"],
      explanation="walker components under contract")
 
 
